@@ -35,7 +35,7 @@ func init() {
 	contextFunctions[symbols.NT_StepWithAxisAndNodeTest] = leftRightDependentResult
 	contextFunctions[symbols.NT_StepWithAxisAndNodeTestAndPredicate] = leftRightDependentResult
 	contextFunctions[symbols.NT_StepWithPredicateWithAnotherPredicate] = leftRightDependentResult
-	contextFunctions[symbols.NT_FilterExprWithPredicate] = leftRightDependentResult
+	contextFunctions[symbols.NT_FilterExprWithPredicate] = execFilterExprWithPredicate
 	contextFunctions[symbols.NT_AxisName] = execAxisName
 	contextFunctions[symbols.NT_AbbreviatedStepParent] = execAbbreviatedStepParent
 	contextFunctions[symbols.NT_AbbreviatedAxisSpecifier] = execAbbreviatedAxisSpecifier
@@ -500,6 +500,30 @@ func execAxisName(context *exprContext, expr *grammar.Grammar) error {
 	context.result = result
 
 	return nil
+}
+
+func execFilterExprWithPredicate(context *exprContext, expr *grammar.Grammar) error {
+	children := make([]*bsr.BSR, 0, 2)
+
+	for _, cn := range expr.BSR.GetAllNTChildren() {
+		for _, c := range cn {
+			children = append(children, &c)
+		}
+	}
+
+	if err := execContext(context, expr.Next(children[0])); err != nil {
+		return err
+	}
+
+	// The predicate of a filter expression numbers the nodes in document
+	// order, whatever order the primary expression produced them in.
+	if nodeSet, ok := context.result.(NodeSet); ok {
+		ordered := make(NodeSet, len(nodeSet))
+		copy(ordered, nodeSet)
+		context.result = cleanupForwardAxis(ordered)
+	}
+
+	return execContext(context, expr.Next(children[1]))
 }
 
 func execAbbreviatedStepParent(context *exprContext, expr *grammar.Grammar) error {
